@@ -3,7 +3,7 @@ G: TLC enumerates every history of length 1 over ValidOps!OpCatalog x inputs and
    each contributes its length-1..3 prefixes as steps).  R: harness/cmd/cstruct valid replays them with the real API, validating the
    input and every output with api.ValidateFile (relaxed).  V: TLC judges every step record with inValid /\\ opOk => outValid
    (spec/ValidOpsTrace.tla)."""
-import json, os, shutil, subprocess
+import json, os, re, shutil, subprocess
 import vlib
 
 META = {
@@ -23,6 +23,16 @@ META = {
 
 def _summary(out):
     return json.loads([l for l in out.splitlines() if l.startswith("SUMMARY ")][-1][8:])
+
+
+def norm_verr(v):
+    v = re.sub(r"^[^:]*: validate \S+: ", "", v)
+    v = v.split("\n")[0]
+    v = re.sub(r"\d+", "N", v)
+    i = v.find("subdict")
+    if i >= 0:
+        v = v[:i + len("subdict")]
+    return v[:120]
 
 
 def run(ctx):
@@ -52,6 +62,9 @@ def run(ctx):
 
         res1, n1 = gen("ValidOps_len1.cfg" if ctx.quick else "ValidOps_len1_all.cfg", workers=4)
         exhaustive_len1 = n1
+        n2 = 0
+        if not ctx.quick:
+            _, n2 = gen("ValidOps_len2.cfg", workers=8)          # every history of length 2 on one generated input
         res3, n3 = gen("ValidOps_sim.cfg", workers=4, simulate="num=%d" % (30 if ctx.quick else 1500), depth=6, seed=ctx.seed)
         ev.sample(json.loads(lines[0]))
         ev.sample(json.loads(lines[-1]))
@@ -89,8 +102,8 @@ def run(ctx):
         groups = {}
         for x in defects:
             s = recs[x["l"] - 1]
-            # key: the operation and its parameters, the input, and what came before (the mechanism lives in the operation)
-            key = "%s(%s,%d,%s)|%s|after[%s]" % (s["op"], s["s"], s["n"], str(s["b"]).lower(), s["input"], s["prefix"])
+            # key: the operation and the kind of validation error (paths, numbers and map-ordered details removed)
+            key = "%s|%s" % (s["op"], norm_verr(s["verr"]))
             groups.setdefault(key, []).append(s)
         for key, ss in sorted(groups.items()):
             s = ss[0]
@@ -102,10 +115,10 @@ def run(ctx):
         ev.sample(judged[0] if judged else recs[0])
         panics = sorted({"%s(%s,%d,%s) on %s" % (s["op"], s["s"], s["n"], s["b"], s["input"]) for s in recs if s["err"].startswith("PANIC")})
         ev.cov(evaluations=len(recs), distinct_nontrivial=len(nontriv),
-               rule="steps of replayed histories: all %d length-1 histories of OpCatalog x inputs (TLC breadth-first, exhaustive) plus %d "
-                    "simulated length-3 histories (seed %d); a step is judged when its input validated and the operation succeeded; "
+               rule="steps of replayed histories: all %d length-1 histories of OpCatalog x inputs (TLC breadth-first, exhaustive), all %d "
+                    "length-2 histories on one generated input (thorough tier) plus %d simulated length-3 histories (seed %d); a step is judged when its input validated and the operation succeeded; "
                     "non-trivial = distinct judged (operation, parameters, input, prefix) steps other than a bare optimize" % (
-                        exhaustive_len1, n3, ctx.seed),
+                        exhaustive_len1, n2, n3, ctx.seed),
                exhaustive=False, histories=len(lines), steps=len(recs), judged=len(judged), replay=tot,
                operations_judged=len({s["op"] for s in judged}), failed_ops=tot.get("op_failed", 0), panics=panics[:20],
                tlc_states=r.distinct)
